@@ -537,7 +537,9 @@ def _r4(ctx, pkg, rule="R4"):
     from ..valueflow import _bool_atoms, guards_satisfiable, split_guard
     fn = pkg.method("Network", "remove_reaction")
     ctx.saw(NF, "Network.remove_reaction")
-    fl = Flow(fn, NF)
+    # predicates / value helpers the dispatch was moved into (methods of the class, functions of the module) are read in place;
+    # a helper's refusing arm (`raise TypeError`) stays an arm
+    fl = Flow(fn, NF, resolver=lambda name: pkg.resolve("Network", name)[1], func_resolver=lambda name: pkg.functions.get((NF, name)), raise_arms=True)
     RL = ("attr", SELF, "reaction_list")
     P = fn.args.args[1].arg if len(fn.args.args) > 1 else "reaction"
     R = ("param", P)
@@ -560,25 +562,43 @@ def _r4(ctx, pkg, rule="R4"):
                     extra.append((a_, val))
         return guards_satisfiable(gs, extra)
 
+    def certain(guards):
+        """every test on the way is one the scenario decides: the statement DOES run for a list of positions (a test this rule
+        cannot read -- an opaque predicate -- leaves that open: no verdict can rest on such a case)"""
+        atoms = set()
+        for g, pol in guards:
+            for c, _ in split_guard((simp(g), pol)):
+                _bool_atoms(c, atoms)
+        return all(any(re.search(pat, show(a_)) for pat, _ in SCEN) for a_ in atoms)
+
     # everything that changes self.reaction_list, case by case
     cases = []          # (kind, leaf | None, fact)
+    sure = {}           # (fact, leaf) -> the case certainly runs in the scenario
     for f in fl.facts:
         if f.kind == "attrstore" and f.target == "reaction_list" and f.extra.get("obj") == SELF:
             for conds, leaf in _flat_cases(simp(f.value)):
+                if leaf[0] == "raise":
+                    continue                    # this arm refuses the argument: nothing is assigned
                 if reachable(tuple(f.guards) + conds):
                     cases.append(("rebuild" if f.op == "=" else "inplace", leaf, f))
+                    sure[id(f), leaf] = certain(tuple(f.guards) + conds)
         elif f.kind == "call" and f.value is not None and f.value[0] == "meth" and simp(f.value[1]) == RL and f.target in ("pop", "remove", "clear", "insert", "append", "extend", "sort", "reverse"):
             if reachable(f.guards):
                 cases.append(("inplace", None, f))
+                sure[id(f), None] = certain(f.guards)
         elif (f.kind == "delete" and f.target.replace(" ", "").startswith("self.reaction_list")) or (f.kind in ("store", "augstore") and f.target == "self.reaction_list"):
             if reachable(f.guards):
                 cases.append(("inplace", None, f))
+                sure[id(f), None] = certain(f.guards)
     W = (NF, cases[0][2].line if cases else fn.lineno)
     inplace = [c for c in cases if c[0] == "inplace"]
     EXP = "[r for idx, r in enumerate(self.reaction_list) if idx not in reaction]"
     BADMSG = "the index-list branch does not rebuild the list from `idx not in reaction`: in-place deletion shifts positions / mishandles repeated indices"
     if inplace:
         f = inplace[0][2]
+        if not any(sure.get((id(c[2]), c[1])) for c in inplace):
+            ctx.unrec(rule, K, (NF, f.line), "whether the in-place edit of self.reaction_list runs for a list of positions depends on a test this rule cannot read")
+            return
         ctx.bad(rule, K, (NF, f.line), BADMSG, expected=EXP, found="; ".join(f"{c[2].kind} {c[2].target}@{c[2].line}" for c in cases))
         return
     if not cases:
@@ -595,9 +615,12 @@ def _r4(ctx, pkg, rule="R4"):
         verdicts.append((ok, wrong, v, f))
     if all(o for o, _, _, _ in verdicts):
         ctx.ok(rule, K, W, "exactly the reactions whose position is not listed survive (repeated indices are harmless)")
+    elif any(w and sure.get((id(f), v)) for _, w, v, f in verdicts):
+        _, _, v, f = next(x for x in verdicts if x[1] and sure.get((id(x[3]), x[2])))
+        ctx.bad(rule, K, (NF, f.line), BADMSG, expected=EXP, found=show(v)[:120])
     elif any(w for _, w, _, _ in verdicts):
         _, _, v, f = next(x for x in verdicts if x[1])
-        ctx.bad(rule, K, (NF, f.line), BADMSG, expected=EXP, found=show(v)[:120])
+        ctx.unrec(rule, K, (NF, f.line), f"whether this rebuild runs for a list of positions depends on a test this rule cannot read: {show(v)[:100]}")
     else:
         _, _, v, f = next(x for x in verdicts if not x[0])
         ctx.unrec(rule, K, (NF, f.line), f"the list built for a list of positions is not recognised: {show(v)[:120]}")
@@ -655,6 +678,20 @@ def _r4_callers(ctx, pkg, rule="R4"):
                 apps = [f for f in efl.facts if e[0] == "acc" and f.target == e[1] and f.kind in ("append", "mutate", "store", "augstore", "remove")]
                 if apps and all(f.kind == "append" and f.op == "append" and simp(f.value)[0] == "idx" for f in apps):
                     pos.add(i)
+    if len(pos) != 1:
+        # by use: the element E of the returned tuple that another element reads the reactions WITH -- `[reactions[i] for i in E]` --
+        # is a list of positions into the reaction list (the others are lists of reactions), however it was collected
+        from ..valueflow import as_map
+        RLS = (("attr", SELF, "reaction_list"),)
+        for fl_ in (ffl,):
+            rv = [simp(f.value) for f in fl_.facts if f.kind == "return"]
+            pos = set()
+            if len(rv) == 1 and rv[0][0] == "tuple":
+                elts = [simp(simp(e)) for e in rv[0][1]]
+                for j, e in enumerate(elts):
+                    m = as_map(e) if e[0] in ("comp", "copy") else None
+                    if m and not m[3] and m[1][0] == "sub" and m[1][2] == m[0] and m[1][1] in RLS:
+                        pos |= {i for i, x in enumerate(elts) if i != j and x == m[2]}
     if len(pos) != 1:
         ctx.unrec(rule, "find_duplicate_reaction:position list", (NF, fd.lineno), f"cannot tell which element of the returned tuple is the list of positions ({sorted(pos)})")
         return
